@@ -580,3 +580,29 @@ package syntax
 //@ func syntax.Stage.format property C09
 //@   requires self != nil && printer != nil
 //@   ensures @split old(self.Split) ==> ghost(pwrote)[") split (\n"] > old(ghost(pwrote)[") split (\n"])
+
+// ---------------------------------------------------------------- C07 the type of a field projected through arrays and typed maps
+// fieldType(id, field): projecting a field through an array adds the array's dimensions to the
+// field's type; through a typed map the field's own array dimensions become map... dimensions
+// of the result and a field that is itself a map is REFUSED (no nested maps), as is any failure
+// of the inner projection.  RA/RM: what fieldType answers for the element type.
+//@ func syntax.fieldType property C07
+//@   opt deterministic on
+//@   let RA = fn(syntax.fieldType, id.Tname, 0, id.MapDim, lookup, field)
+//@   let RM = fn(syntax.fieldType, id.Tname, 0, 0, lookup, field)
+//@   ensures @identity field == "" ==> result.0.Tname == id.Tname && result.0.ArrayDim == id.ArrayDim && result.0.MapDim == id.MapDim && isnil(result.1)
+//@   ensures @array field != "" && id.ArrayDim != 0 ==> result.0.Tname == RA.0.Tname && result.0.ArrayDim == RA.0.ArrayDim + id.ArrayDim && result.0.MapDim == RA.0.MapDim && result.1 == RA.1
+//@   ensures @map field != "" && id.ArrayDim == 0 && id.MapDim != 0 && isnil(result.1) ==> isnil(RM.1) && RM.0.MapDim == 0 && result.0.Tname == RM.0.Tname && result.0.MapDim == id.MapDim + RM.0.ArrayDim && result.0.ArrayDim == 0
+
+// ---------------------------------------------------------------- C07 / C09 calls are compiled (and formatted) in dependency order
+// topoSort: the sorted region [0, checkIndex) never holds a call ahead of a call it depends on
+// (depsMap: direct and next-level dependencies).  A call that is moved down is re-examined
+// in its new neighbourhood: the index only advances past a call none of whose dependencies
+// comes later.  (The type of a reference to a mapped call is only right once that call has
+// been compiled, so compiling out of dependency order mis-types bindings.)
+//@ func syntax.Pipeline.topoSort property C07 C09
+//@   requires pipeline != nil
+//@   loop 1 invariant 0 <= checkIndex && checkIndex < len(pipeline.Calls)
+//@   loop 1 invariant forall i, j :: 0 <= i && i < checkIndex && i < j && j < len(pipeline.Calls) ==> !has(depsMap[pipeline.Calls[i]], pipeline.Calls[j])
+//@   loop 2 invariant 0 <= iter && -1 <= maxIndex && maxIndex < iter
+//@   loop 2 invariant forall k :: maxIndex < k && k < iter ==> !has(deps, pipeline.Calls[checkIndex + 1 + k])
